@@ -692,6 +692,75 @@ def origin_deep(d, op, through=()):
     return o
 
 
+def op_local_(o):
+    from .facts import op_local as _f
+    return _f(o)
+
+
+def const_step(fn, bb, env):
+    env = dict(env)
+    for s in fn.blocks[bb]["stmts"]:
+        if s["k"] != "assign" or s["place"]["p"]:
+            continue
+        rv, l = s["rv"], s["place"]["l"]
+        val = None
+        if rv["k"] == "use":
+            k = rv["op"].get("k") if isinstance(rv["op"], dict) else None
+            if isinstance(k, dict) and "bits" in k:
+                val = k["bits"]
+            else:
+                src = op_local_(rv["op"])
+                pl = rv["op"].get("mv") or rv["op"].get("cp") or {}
+                if src is not None and not pl.get("p") and src in env:
+                    val = env[src]
+        elif rv["k"] == "un" and rv.get("op") == "Not":
+            a = env.get(op_local_(rv["a"]))
+            if a is not None and not isinstance(a, tuple):
+                val = 1 - int(a)
+        elif rv["k"] == "agg" and rv.get("agg") == "adt" and rv.get("vi") is not None:
+            val = ("variant", rv["vi"])
+        elif rv["k"] == "discr":
+            pl = rv.get("place") or {}
+            a = env.get(pl.get("l")) if not pl.get("p") else None
+            if isinstance(a, tuple):
+                val = a[1]
+        if val is None:
+            env.pop(l, None)
+        else:
+            env[l] = val
+    t = fn.term(bb)
+    succs = list(fn.succ(bb))
+    if t["k"] == "call" and not t["dest"]["p"]:
+        env.pop(t["dest"]["l"], None)
+    if t["k"] == "switch":
+        cv = env.get(op_local_(t["op"]))
+        if cv is not None:
+            hit = [tb for v, tb in t["targets"] if v == cv]
+            succs = hit[:1] if hit else [t["otherwise"]]
+    return succs, env
+
+
+def reachable_following_constants(fn, start, targets, env0=None, forbid=None, limit=20000):
+    """is one of `targets` reachable from `start` when boolean / integer / enum-variant constants assigned on the way decide
+    the switches they reach? forbid(bb, succ) -> True removes an edge."""
+    tg = set(targets)
+    st0 = (start, tuple(sorted((env0 or {}).items(), key=repr)))
+    seen, st = {st0}, [st0]
+    while st and len(seen) < limit:
+        x, envt = st.pop()
+        if x in tg:
+            return True
+        succs, env = const_step(fn, x, dict(envt))
+        for y in succs:
+            if forbid and forbid(x, y):
+                continue
+            key = (y, tuple(sorted(env.items(), key=repr)))
+            if key not in seen:
+                seen.add(key)
+                st.append(key)
+    return False
+
+
 def every_iteration_passes(fn, via_bbs, must_visit=None):
     """for each loop (back edges grouped by head) containing one of via_bbs: can an iteration go round (reach a back-edge
     tail from the loop head, staying inside the loop) without passing any of them? Returns the (head, tail) pairs it can.
@@ -706,46 +775,7 @@ def every_iteration_passes(fn, via_bbs, must_visit=None):
         heads.setdefault(hd, []).append(tl)
 
     def step(bb, env):
-        env = dict(env)
-        for s in fn.blocks[bb]["stmts"]:
-            if s["k"] != "assign" or s["place"]["p"]:
-                continue
-            rv, l = s["rv"], s["place"]["l"]
-            val = None
-            if rv["k"] == "use":
-                k = rv["op"].get("k") if isinstance(rv["op"], dict) else None
-                if isinstance(k, dict) and "bits" in k:
-                    val = k["bits"]
-                else:
-                    src = _ol(rv["op"])
-                    pl = rv["op"].get("mv") or rv["op"].get("cp") or {}
-                    if src is not None and not pl.get("p") and src in env:
-                        val = env[src]
-            elif rv["k"] == "un" and rv.get("op") == "Not":
-                a = env.get(_ol(rv["a"]))
-                if a is not None and not isinstance(a, tuple):
-                    val = 1 - int(a)
-            elif rv["k"] == "agg" and rv.get("agg") == "adt" and rv.get("vi") is not None:
-                val = ("variant", rv["vi"])
-            elif rv["k"] == "discr":
-                pl = rv.get("place") or {}
-                a = env.get(pl.get("l")) if not pl.get("p") else None
-                if isinstance(a, tuple):
-                    val = a[1]
-            if val is None:
-                env.pop(l, None)
-            else:
-                env[l] = val
-        t = fn.term(bb)
-        succs = list(fn.succ(bb))
-        if t["k"] == "call" and not t["dest"]["p"]:
-            env.pop(t["dest"]["l"], None)
-        if t["k"] == "switch":
-            cv = env.get(_ol(t["op"]))
-            if cv is not None:
-                hit = [tb for v, tb in t["targets"] if v == cv]
-                succs = hit[:1] if hit else [t["otherwise"]]
-        return succs, env
+        return const_step(fn, bb, env)
     mv = set(must_visit or ())
     for hd, tails in sorted(heads.items()):
         body = set()
